@@ -301,10 +301,11 @@ def check_behaviour(rep, vec, idx, res, tags, stats):
 def run(tier):
     rep = Report(PROP, tier, META["level"])
     rep.rule = ("TLC enumerates (stream type, origin of the file, payload, eof_action, sequence of operations) within the bounds: "
-                "quick = all sequences of 4 (content of <= 1 character) or 3 operations from 7 (text) / 4 (binary) operations "
-                "over 31 text and 21 binary payloads, plus write-then-read round trips of <= 2 writes and 2 reads; thorough "
-                "adds a second operation family (get_n_chars 1, position mark/seek, wrong-type reads), longer payloads, one "
-                "more operation and random walks of 30 operations. distinct = (type, origin, operation, demanded result "
+                "quick = all sequences of 4 (content of <= 1 character) or 3 operations from two text families (5 + 4 "
+                "operations) and 4 binary operations over 31 text and 21 binary payloads, plus write-then-read round trips of <= 2 "
+                "writes and 2 reads; thorough = the full 7-operation text family with 4 operations on contents of <= 2 characters, "
+                "a second family (get_n_chars 1, position mark/seek, wrong-type reads), payloads of 3 characters/bytes and random "
+                "walks of 30 operations over all 13 operations. distinct = (type, origin, operation, demanded result "
                 "kind, end_of_stream before, eof_action when past)")
     workers = 8
     inv = tlc_ok(run_tlc("MC_C19", "MC_C19_inv_%s.cfg" % tier, workers=workers, timeout=1800), "C19 invariants")
@@ -312,7 +313,7 @@ def run(tier):
     res, vecs = common.generate("MC_C19", "MC_C19_%s.cfg" % tier, workers=workers, timeout=3000)
     rep.add_tlc(res)
     if tier == "thorough":
-        for r in common.simulate_parallel("MC_C19", "MC_C19_walk.cfg", procs=4, num=1500, depth=40, timeout=1800):
+        for r in common.simulate_parallel("MC_C19", "MC_C19_walk.cfg", procs=4, num=300, depth=40, timeout=1800):
             tlc_ok(r, "C19 walks")
             rep.add_tlc(r)
             seen = set()
